@@ -165,6 +165,20 @@ pub fn run(o: &Opts) -> Report {
             (mk6(true), bv(&["cp", "a.txt"]), Box::new(|m| { want_occs(m, &[], "src", &[&["a.txt"]])?; want_occs(m, &[], "dest", &[]) })),
         ];
         run_expect(&mut rep, o, "positional-filled-out-of-index-order", cases6);
+        // the command-level `trailing_var_arg` switch belongs to the positional with the HIGHEST index: once it has a value,
+        // every later token is one of its values
+        let mk7 = |arg_level: bool| { let mut c = CmdS { name: "prog".into(), ..Default::default() };
+            c.settings.trailing_var_arg = !arg_level;
+            c.args.push(ArgS { id: "x".into(), short: Some('x'), action: Some("setTrue"), ..Default::default() });
+            c.args.push(ArgS { id: "first".into(), ..Default::default() });
+            c.args.push(ArgS { id: "rest".into(), num_vals: Some((1, None)), trailing_var_arg: arg_level, ..Default::default() });
+            c };
+        let mut cases7: Vec<(CmdS, Vec<Vec<u8>>, Expect)> = vec![];
+        for al in [true, false] {
+            cases7.push((mk7(al), bv(&["prog", "f", "cmd", "-x", "--y", "z"]), Box::new(|m| { want_occs(m, &[], "first", &[&["f"]])?; want_occs(m, &[], "rest", &[&["cmd", "-x", "--y", "z"]])?; want_occs(m, &[], "x", &[&["false"]]) })));
+            cases7.push((mk7(al), bv(&["prog", "-x", "f", "cmd"]), Box::new(|m| { want_occs(m, &[], "rest", &[&["cmd"]])?; want_occs(m, &[], "x", &[&["true"]]) })));
+        }
+        run_expect(&mut rep, o, "trailing-var-arg-value-taken-for-a-flag", cases7);
     }
     crate::pcorr::run_generic(&mut rep, o, 0xC02);
     rep
